@@ -58,6 +58,9 @@ type Scenario struct {
 	LoadDelay int         `json:"load_delay_us,omitempty"` // latency of every Load
 	Consumer  string      `json:"consumer"`                // fast | slow | hold
 	Bound     int         `json:"bound"`                   // List cycles allowed after the last change/fault
+	// HeldBound: every instance has exactly one valid blob and nothing changes: then
+	// (successful Loads - deliveries) is the number of snapshots held in memory by the receiver
+	HeldBound bool `json:"held_bound,omitempty"`
 }
 
 // HostileBlob is provided by the caller (the C08 generators).
@@ -84,6 +87,7 @@ type Outcome struct {
 	Inconclusive   string
 	LimitReachedD  bool
 	LimitReachedZ  bool
+	MaxHeld        int // max over time of (successful Loads - deliveries), only with Scenario.HeldBound
 	Superseded     int // deliveries skipped because a newer snapshot replaced an unconsumed one
 	HostileLoaded  int
 	RunReturned    bool
@@ -208,7 +212,17 @@ func Run(sc Scenario, hb HostileBlob, watchdog time.Duration) (out Outcome) {
 
 	// bucket evolution driven by completed List calls
 	var emu sync.Mutex
+	var loadsOK, delivered, maxHeld int64
 	b.OnEvent = func(e bucket.Event) {
+		if e.Op == "Load" && e.Err == "" {
+			h := atomic.AddInt64(&loadsOK, 1) - atomic.LoadInt64(&delivered)
+			for {
+				m := atomic.LoadInt64(&maxHeld)
+				if h <= m || atomic.CompareAndSwapInt64(&maxHeld, m, h) {
+					break
+				}
+			}
+		}
 		if e.Op == "List" {
 			n := int(atomic.AddInt32(&listCycles, 1))
 			emu.Lock()
@@ -250,6 +264,7 @@ func Run(sc Scenario, hb HostileBlob, watchdog time.Duration) (out Outcome) {
 				time.Sleep(200 * time.Microsecond)
 				continue
 			}
+			atomic.AddInt64(&delivered, 1)
 			// delivered updates must be usable
 			usable := upd.Snapshot != nil
 			dmu.Lock()
@@ -343,18 +358,21 @@ func Run(sc Scenario, hb HostileBlob, watchdog time.Duration) (out Outcome) {
 		startBound = lf
 	}
 	deadline := time.Now().Add(watchdog)
-	loadFaultsOver := func() bool { return b.Count("Load") >= lastFault["Load"] }
+	// Load fault windows are counted in Load calls, which only happen while something is still to be
+	// downloaded: every scripted Load failure costs the downloader one retry (about one List cycle), so the
+	// allowance grows with the window instead of waiting for it to elapse
+	allowance := sc.Bound + 3*lastFault["Load"]
 	boundStart := -1
 	for {
 		lc := int(atomic.LoadInt32(&listCycles))
-		if boundStart < 0 && lc >= startBound && loadFaultsOver() {
+		if boundStart < 0 && lc >= startBound {
 			boundStart = lc
 		}
 		if boundStart >= 0 && satisfied() {
 			out.CyclesToAll = lc - boundStart
 			break
 		}
-		if boundStart >= 0 && lc-boundStart > sc.Bound {
+		if boundStart >= 0 && lc-boundStart > allowance {
 			var missing []string
 			dmu.Lock()
 			for inst, need := range required {
@@ -370,7 +388,7 @@ func Run(sc Scenario, hb HostileBlob, watchdog time.Duration) (out Outcome) {
 			}
 			dmu.Unlock()
 			sort.Strings(missing)
-			out.Violations = append(out.Violations, Finding{"not-delivered-within-bound", fmt.Sprintf("after %d List cycles without bucket changes or faults the newest decodable snapshot was not delivered for: %s", sc.Bound, strings.Join(missing, "; "))})
+			out.Violations = append(out.Violations, Finding{"not-delivered-within-bound", fmt.Sprintf("after %d List cycles without bucket changes or List faults the newest decodable snapshot was not delivered for: %s", allowance, strings.Join(missing, "; "))})
 			break
 		}
 		if time.Now().After(deadline) {
@@ -442,6 +460,7 @@ func Run(sc Scenario, hb HostileBlob, watchdog time.Duration) (out Outcome) {
 		out.RunReturned = true
 	case <-time.After(5 * time.Second):
 	}
+	out.MaxHeld = int(atomic.LoadInt64(&maxHeld))
 	out.ListCycles = int(atomic.LoadInt32(&listCycles))
 	out.MaxInflight = atomic.LoadInt32(&b.MaxInflightLoad)
 	out.FaultsFired = int(atomic.LoadInt32(&faultsFired))
@@ -455,11 +474,14 @@ func Run(sc Scenario, hb HostileBlob, watchdog time.Duration) (out Outcome) {
 	if int(out.MaxInflight) > sc.DLimit {
 		out.Violations = append(out.Violations, Finding{"too-many-concurrent-loads", fmt.Sprintf("%d Load calls in flight with memory_downloaded_snapshots=%d", out.MaxInflight, sc.DLimit)})
 	}
-	if out.MaxActiveD > float64(sc.DLimit) {
-		out.Violations = append(out.Violations, Finding{"download-gauge-above-limit", fmt.Sprintf("climit_active{download}=%v > %d", out.MaxActiveD, sc.DLimit)})
+	// The climit_active gauges are decremented after the token went back into the channel, so a sample
+	// can legitimately read limit+1 for an instant although no more than `limit` tokens are out: transient
+	// gauge samples are recorded as observations only (they are exact at quiescence, see token-leak below).
+	if out.MaxActiveD > float64(sc.DLimit)+1 || out.MaxActiveZ > float64(sc.ZLimit)+1 {
+		out.Violations = append(out.Violations, Finding{"gauge-far-above-limit", fmt.Sprintf("climit_active download=%v (limit %d) decompress=%v (limit %d)", out.MaxActiveD, sc.DLimit, out.MaxActiveZ, sc.ZLimit)})
 	}
-	if out.MaxActiveZ > float64(sc.ZLimit) {
-		out.Violations = append(out.Violations, Finding{"decompress-gauge-above-limit", fmt.Sprintf("climit_active{decompress}=%v > %d", out.MaxActiveZ, sc.ZLimit)})
+	if sc.HeldBound && out.MaxHeld > sc.DLimit+sc.ZLimit {
+		out.Violations = append(out.Violations, Finding{"more-snapshots-held-than-configured", fmt.Sprintf("%d blobs were downloaded and not yet handed to the merge loop at one moment; memory_downloaded_snapshots=%d + memory_decompressed_snapshots=%d", out.MaxHeld, sc.DLimit, sc.ZLimit)})
 	}
 	out.LimitReachedD = out.MaxActiveD >= float64(sc.DLimit)
 	out.LimitReachedZ = out.MaxActiveZ >= float64(sc.ZLimit)
